@@ -23,7 +23,7 @@ ASSUMPTIONS = ["an endmarker not delivered within 6 s after the stream ended cou
 MINIMUM = {"histories": 400, "callback_invocations": 3000, "sweep_fired": 80, "connection_loss_histories": 40}
 SHARD_TIMEOUT = {"quick": 120, "thorough": 2400}
 
-ENDINGS = ["close", "close_error", "end_of_exec", "connection_loss"]
+ENDINGS = ["close", "close_error", "end_of_exec", "connection_loss", "last_message"]
 WHENS = ["before", "after_j", "after_close", "concurrent"]
 
 
@@ -43,18 +43,24 @@ def shards(tier, seed):
 def gen_history(rng, ending=None):
     ending = ending or rng.choice(ENDINGS)
     n = rng.choice((0, 1, 2, 5, 12, 30))
-    h = {"ending": ending, "n": n, "when": rng.choice(WHENS), "endmarker": rng.random() < 0.75,
+    h = {"ending": ending, "n": n, "when": rng.choice(WHENS), "endmarker": rng.random() < 0.75, "em": rng.randrange(len(ENDMARKERS)),
+         "close_in_callback": rng.random() < 0.3,
          "drop_ref": rng.random() < 0.25, "cbside": "local" if ending in ("end_of_exec", "connection_loss") else rng.choice(("local", "remote")),
          "j": n if rng.random() < 0.3 else rng.randint(0, n), "cut_inside_frame": rng.random() < 0.5}
     return h
 
 
 E = ("__endmarker__",)
+ENDMARKERS = [E, None, 0, False, "", (), -1, "end"]  # any object may serve as endmarker, None and falsy ones included
 
 
 def check_callback_log(res, h, got, label, m):
     n = h["n"]
     hid = h["hid"]
+    E = ENDMARKERS[h.get("em", 0)]
+    isend = lambda g: g is E or (type(g) is type(E) and g == E and not isinstance(g, tuple)) or (isinstance(E, tuple) and g == E)
+    got = [("<<END>>",) if isend(g) else g for g in got]
+    E = ("<<END>>",)
     items = [g for g in got if g != E]
     res.count("callback_invocations", len(got))
     seqs = [g[1] for g in items if isinstance(g, tuple) and len(g) == 2 and g[0] == hid]
@@ -99,14 +105,28 @@ def run_history(res: Result, lab, h, label):
     holder = [R]
     del R
     api = {}
+    E = ENDMARKERS[h.get("em", 0)]
+    if ending == "last_message":
+        # the sending side itself receives by callback and will simply drop its channel object at the end
+        S.setcallback(lambda x: None)
+    sender_holder = [S]
+
+    def cb(item):
+        got.append(item)
+        if h.get("close_in_callback") and (item is E) and holder:
+            # a callback may close its channel when it sees the end of the stream
+            try:
+                holder[0].close()
+            except Exception as e:  # noqa
+                got.append(("close-raised", repr(e)))
 
     def register():
         lab.sched.set_role("setcb")
         ch = holder[0]
         if h["endmarker"]:
-            ch.setcallback(got.append, endmarker=E)
+            ch.setcallback(cb, endmarker=E)
         else:
-            ch.setcallback(got.append)
+            ch.setcallback(cb)
         # from now on receive() and a second registration are refused
         try:
             ch.receive(0.01)
@@ -129,22 +149,27 @@ def run_history(res: Result, lab, h, label):
 
     def send(lo, hi):
         for s in range(lo, hi):
-            S.send((hid, s))
+            sender_holder[0].send((hid, s))
 
     def end():
         if ending == "close":
             S.close()
         elif ending == "close_error":
             S.close("deliberate")
+        elif ending == "last_message":
+            sender_holder.clear()
         else:
             fin.set()
 
+    if ending == "last_message":
+        del S
     when = h["when"]
     try:
         if when == "before":
             register()
             send(0, n)
             end()
+            gc.collect()
         elif when == "after_j":
             send(0, j)
             q = holder[0]._items
@@ -154,9 +179,11 @@ def run_history(res: Result, lab, h, label):
             register()
             send(j, n)
             end()
+            gc.collect()
         elif when == "after_close":
             send(0, n)
             end()
+            gc.collect()
             try:
                 holder[0].waitclose(6)
             except Exception:
@@ -179,12 +206,16 @@ def run_history(res: Result, lab, h, label):
     # wait for the end of the stream as the callback sees it
     from vlib import pairs
 
+    gc.collect()
     if h["endmarker"]:
-        pairs.wait_until(lambda: E in got, 6.0)
+        pairs.wait_until(lambda: any(g is E for g in got), 6.0)
     else:
         pairs.wait_until(lambda: len(got) >= n, 6.0)
         time.sleep(0.002)
-    check_callback_log(res, h, list(got), label, m)
+    bad = [g for g in got if isinstance(g, tuple) and g and g[0] == "close-raised"]
+    if bad:
+        res.violation(m("close-inside-endmarker-callback-raised"), f"{label}: {bad[0]}")
+    check_callback_log(res, h, [g for g in got if g not in bad], label, m)
     if api.get("receive") != "OSError":
         res.violation(m("receive-after-setcallback-not-refused"), f"{label}: {api.get('receive')}")
     if api.get("second") != "OSError":
@@ -211,6 +242,8 @@ def run_loss_history(res: Result, h, label, pre_setup=None):
             tail = full[: 1 + hid % (len(full) - 1)]
         holder = [ch]
         del ch
+
+        E = ENDMARKERS[h.get("em", 0)]
 
         def register():
             c = holder[0]
@@ -256,7 +289,7 @@ def run_loss_history(res: Result, h, label, pre_setup=None):
                 res.violation(m("setcallback-blocked"), label)
                 return
         if h["endmarker"]:
-            pairs.wait_until(lambda: E in got, 6.0)
+            pairs.wait_until(lambda: any(g is E for g in got), 6.0)
         else:
             pairs.wait_until(lambda: len(got) >= n, 6.0)
             time.sleep(0.002)
@@ -376,6 +409,8 @@ def run_multi(spec):
             ends = [lab.pair_remote_exec() for lab in labs]
             mc = execnet.MultiChannel([lc for lc, rc, fin in ends])
             want_end = rng.random() < 0.8
+            em = rng.randrange(len(ENDMARKERS))
+            E = ENDMARKERS[em]
             counts = [rng.choice((0, 1, 5, 25)) for _ in range(G)]
             q = mc.make_receive_queue(endmarker=E) if want_end else mc.make_receive_queue()
 
@@ -405,7 +440,7 @@ def run_multi(spec):
             label = f"multichannel G={G} counts={counts} endmarker={want_end}"
             for g, (lc, rc, fin) in enumerate(ends):
                 mine = [obj for chan, obj in got if chan is lc]
-                h = {"n": counts[g], "hid": g, "endmarker": want_end}
+                h = {"n": counts[g], "hid": g, "endmarker": want_end, "em": em}
                 check_callback_log(res, h, mine, label, lambda n_: f"{n_}:multichannel")
             if mc.make_receive_queue(E) is not q:
                 res.violation("make-receive-queue-not-idempotent", label)
